@@ -181,6 +181,7 @@ Spec == TabInit /\ [][TabNext]_vars
 (* the theorems of the case tables: the loop as coded meets the statement (for every order in which the
    registered hostnames may be reported: the statement does not depend on it) *)
 ImplMeetsDecl ==
+  done \/        \* (evaluated once per case, on the initial state)
   CASE Family = "sync"  -> LET r == SyncImpl(c.tun, SetToSeq(c.reg)) IN AllTrue(SyncDecl(c.tun, c.reg, r.out, r.gen))
     [] Family = "nodes" -> AllTrue(NodesDecl(c, NodesImpl(c)))
     [] OTHER -> TRUE
